@@ -3546,7 +3546,7 @@ theorem stepC_sound (hs : SimpSound s) (hI : I.Std) (hmem : cfg.maxMem + 32 ≤ 
     (∀ ce ∈ (stepC s o cfg codes cs).ends, ce.e.tag = .normal → ∀ h, ce.e.out = .halt h →
         ∃ w', RunStack p w f kcs (w', haltWith h (ce.e.data.map (·.eval I))) ∧
           WRelM I S (wd w0 ce.created ce.nonce) w' (stoOf ce.stores) (evalLogs I ce.logs) (balSem I w0 ce.bal) ∧
-          HRel I p S w' ce.hsto) := by
+          HRel I p S w' ce.hsto ∧ EndInv I S ce) := by
   obtain ⟨hcodes', hS', hcb'⟩ := dyn_codes (cfg := cfg) hcodes hS hcb hrel
   rw [stepC_eq]
   split
